@@ -36,7 +36,8 @@ Record applied := {
   ap_result : sresult;                 (* step.apply(doc) *)
   ap_map : list range;                 (* step.get_map().ranges *)
   ap_invert : res step;                (* step.invert(doc) *)
-  ap_undo : option sresult             (* invert(doc).apply(result doc) when both exist *)
+  ap_undo : option sresult;            (* invert(doc).apply(result doc) when both exist *)
+  ap_mapped : list Z                   (* step.get_map().map(p, 1) for p = 0 .. size of doc, as the implementation maps *)
 }.
 Notation AP := Build_applied.
 
@@ -63,7 +64,10 @@ Definition agree_applied (s : schema) (doc : node) (a : applied) : bool :=
   match ap_undo a, ap_result a, ap_invert a with
   | Some u, ROk d', Ok inv => sresult_eqb (apply s inv d') u
   | _, _, _ => true
-  end.
+  end &&
+  (* the implementation maps every position of the document as the model's StepMap does *)
+  list_eqb Z.eqb (List.map (fun p => StepMap.map (get_map s st) (Z.of_nat p) 1) (nrange 0 (S (frag_size s (node_content doc)))))
+           (ap_mapped a).
 
 Fixpoint agree_hist (s : schema) (doc : node) (h : list applied) (final : node) : bool :=
   match h with
@@ -160,7 +164,8 @@ Definition map_faithful (s : schema) (doc : node) (a : applied) : bool :=
     forallb (fun i =>
       if in_ranges (ap_map a) (Z.of_nat i) then true
       else
-        let j := Z.to_nat (StepMap.map m (Z.of_nat i) 1) in
+        (* the position the IMPLEMENTATION's map sends i to *)
+        let j := Z.to_nat (nth i (ap_mapped a) (-1)%Z) in
         match nth_error T i, nth_error T' j with
         | Some x, Some y => if step_touch (ap_step a) i then tok_shape_eqb x y else tok_eqb x y
         | _, _ => false
